@@ -10,6 +10,23 @@
 #include <stdlib.h>
 #include <string.h>
 
+/* Verification hook (compiled only with -DCARQUET_VERIF under AddressSanitizer): the unused part of every arena
+ * block is poisoned and every allocation is followed by a poisoned red zone, so that an access past an arena
+ * allocation is reported by the sanitizer like an access past a malloc'ed block. No effect on other builds. */
+#if defined(CARQUET_VERIF)
+#  if defined(__SANITIZE_ADDRESS__)
+#    define ARENA_VERIF_ASAN 1
+#  elif defined(__has_feature)
+#    if __has_feature(address_sanitizer)
+#      define ARENA_VERIF_ASAN 1
+#    endif
+#  endif
+#endif
+#ifdef ARENA_VERIF_ASAN
+#include <sanitizer/asan_interface.h>
+#define ARENA_VERIF_REDZONE 16
+#endif
+
 /* ============================================================================
  * Internal Helpers
  * ============================================================================
@@ -36,6 +53,9 @@ static carquet_arena_block_t* arena_new_block(size_t min_size) {
     block->next = NULL;
     block->size = block_size;
     block->used = 0;
+#ifdef ARENA_VERIF_ASAN
+    ASAN_POISON_MEMORY_REGION(CARQUET_ARENA_BLOCK_DATA(block), block_size);
+#endif
 
     return block;
 }
@@ -93,6 +113,9 @@ void carquet_arena_reset(carquet_arena_t* arena) {
     carquet_arena_block_t* block = arena->head;
     while (block) {
         block->used = 0;
+#ifdef ARENA_VERIF_ASAN
+        ASAN_POISON_MEMORY_REGION(CARQUET_ARENA_BLOCK_DATA(block), block->size);
+#endif
         block = block->next;
     }
 
@@ -136,12 +159,18 @@ void* carquet_arena_alloc_aligned(carquet_arena_t* arena, size_t size, size_t al
     /* Calculate aligned offset based on absolute address */
     size_t aligned_offset = arena_aligned_offset(block, block->used, alignment);
     size_t new_used = aligned_offset + size;
+#ifdef ARENA_VERIF_ASAN
+    new_used += ARENA_VERIF_REDZONE;
+#endif
 
     /* Check if current block has space */
     if (new_used <= block->size) {
         void* ptr = CARQUET_ARENA_BLOCK_DATA(block) + aligned_offset;
         block->used = new_used;
         arena->total_allocated += size;
+#ifdef ARENA_VERIF_ASAN
+        ASAN_UNPOISON_MEMORY_REGION(ptr, size);
+#endif
         return ptr;
     }
 
@@ -150,18 +179,27 @@ void* carquet_arena_alloc_aligned(carquet_arena_t* arena, size_t size, size_t al
         block = block->next;
         aligned_offset = arena_aligned_offset(block, block->used, alignment);
         new_used = aligned_offset + size;
+#ifdef ARENA_VERIF_ASAN
+        new_used += ARENA_VERIF_REDZONE;
+#endif
 
         if (new_used <= block->size) {
             arena->current = block;
             void* ptr = CARQUET_ARENA_BLOCK_DATA(block) + aligned_offset;
             block->used = new_used;
             arena->total_allocated += size;
+#ifdef ARENA_VERIF_ASAN
+            ASAN_UNPOISON_MEMORY_REGION(ptr, size);
+#endif
             return ptr;
         }
     }
 
     /* Need new block */
     size_t needed = size + alignment;  /* Worst case alignment overhead */
+#ifdef ARENA_VERIF_ASAN
+    needed += ARENA_VERIF_REDZONE;
+#endif
     size_t block_size = needed > arena->default_block_size
                             ? needed
                             : arena->default_block_size;
@@ -180,6 +218,10 @@ void* carquet_arena_alloc_aligned(carquet_arena_t* arena, size_t size, size_t al
     aligned_offset = arena_aligned_offset(new_block, new_block->used, alignment);
     new_block->used = aligned_offset + size;
     arena->total_allocated += size;
+#ifdef ARENA_VERIF_ASAN
+    new_block->used += ARENA_VERIF_REDZONE;
+    ASAN_UNPOISON_MEMORY_REGION(CARQUET_ARENA_BLOCK_DATA(new_block) + aligned_offset, size);
+#endif
 
     return CARQUET_ARENA_BLOCK_DATA(new_block) + aligned_offset;
 }
@@ -261,10 +303,16 @@ void carquet_arena_restore(carquet_arena_t* arena, carquet_arena_mark_t mark) {
     carquet_arena_block_t* block = mark.block->next;
     while (block) {
         block->used = 0;
+#ifdef ARENA_VERIF_ASAN
+        ASAN_POISON_MEMORY_REGION(CARQUET_ARENA_BLOCK_DATA(block), block->size);
+#endif
         block = block->next;
     }
 
     /* Restore marked block state */
+#ifdef ARENA_VERIF_ASAN
+    ASAN_POISON_MEMORY_REGION(CARQUET_ARENA_BLOCK_DATA(mark.block) + mark.used, mark.block->size - mark.used);
+#endif
     mark.block->used = mark.used;
     arena->current = mark.block;
     arena->total_allocated = mark.total_allocated;
